@@ -98,13 +98,13 @@ mut("C19-evict-nolock", ["C19", "C01"], S, "\t\tshard.mu.Lock()\n\t\tdeleted := 
 mut("C19-close-nolock", ["C19", "C10"], S, "\t\tshard.mu.Lock()\n\t\tshard.closed = true\n\t\tshard.hashmap = map[K]*Entry[K, V]{}\n\t\tshard.mu.Unlock()", "\t\tshard.closed = true\n\t\tshard.hashmap = map[K]*Entry[K, V]{}", "Close without the shard locks")
 mut("C19-drainread-nolock", ["C19", "C08"], S, "func (s *Store[K, V]) drainRead(buffer []ReadBufItem[K, V]) {\n\ts.policyMu.Lock()", "func (s *Store[K, V]) drainRead(buffer []ReadBufItem[K, V]) {\n\tdefer s.policyMu.Lock()", "read drain touches the policy before taking the policy lock")
 mut("C02-nonblocking-send", ["C02", "C20"], S, "\tselect {\n\tcase s.writeChan <- item:\n\tcase <-s.ctx.Done():\n\t}", "\tselect {\n\tcase s.writeChan <- item:\n\tcase <-s.ctx.Done():\n\tdefault:\n\t}", "event dropped when the queue is full")
-mut("C01-pool-guard", ["C01", "C02", "C05"], S, "\t\tif entry.key == key {\n\t\t\t// put back and create an entry manually\n\t\t\t// because same key reuse might cause race condition\n\t\t\ts.entryPool.Put(entry)\n\t\t\tentry = &Entry[K, V]{}\n\t\t}\n", "", "same-key reuse guard removed (entry pool)")
-mut("C01-pool-flagreset", ["C01", "C02", "C05", "C14"], S, "\t\tentry.value = zero\n\t\tentry.flag = Flag{}\n\t\ts.entryPool.Put(entry)", "\t\tentry.value = zero\n\t\ts.entryPool.Put(entry)", "flags of a recycled entry not reset")
+mut("C01-pool-guard", ["C01", "C02"], S, "\t\tif entry.key == key {\n\t\t\t// put back and create an entry manually\n\t\t\t// because same key reuse might cause race condition\n\t\t\ts.entryPool.Put(entry)\n\t\t\tentry = &Entry[K, V]{}\n\t\t}\n", "", "same-key reuse guard removed (entry pool)")
+mut("C01-pool-flagreset", ["C15", "C01"], S, "\t\tentry.value = zero\n\t\tentry.flag = Flag{}\n\t\ts.entryPool.Put(entry)", "\t\tentry.value = zero\n\t\ts.entryPool.Put(entry)", "flags of a recycled entry not reset")
 mut("C11-nofreq2", ["C11"], S, "\t\t\t\t\tif pentry.Frequency > 0 {\n\t\t\t\t\t\ts.policy.sketch.Addn(s.hasher.Hash(entry.key), pentry.Frequency)\n\t\t\t\t\t}\n\t\t\t\t\ts.policy.weightedSize += uint(entry.policyWeight)\n\t\t\t\t}\n\t\t\t}\n\t\tcase 4:", "\t\t\t\t\ts.policy.weightedSize += uint(entry.policyWeight)\n\t\t\t\t}\n\t\t\t}\n\t\tcase 4:", "frequency not re-added for probation entries")
 mut("C11-expire-cmp", ["C11"], S, "\t\t\t\tif expire != 0 && expire < s.timerwheel.clock.NowNano() {\n\t\t\t\t\tcontinue\n\t\t\t\t}\n\t\t\t\tl := s.policy.slru.protected", "\t\t\t\tif expire != 0 && expire > s.timerwheel.clock.NowNano() {\n\t\t\t\t\tcontinue\n\t\t\t\t}\n\t\t\t\tl := s.policy.slru.protected", "expiry filter inverted for the protected region")
-mut("C20-fifo", ["C20"], S, "\t\t\ts.writeBuffer = append(s.writeBuffer, first)\n\t\tloop:", "\t\t\tif first.code != WAIT {\n\t\t\t\ts.writeBuffer = append(s.writeBuffer, first)\n\t\t\t} else {\n\t\t\t\tdefer func() {}()\n\t\t\t\ts.waitChan <- true\n\t\t\t\tcontinue\n\t\t\t}\n\t\tloop:", "a marker that opens a batch is answered at once")
-mut("C13-wake-before-result", ["C13"], SF, "\t\tc.val, c.err = fn()\n\t\tnormalReturn = true", "\t\tv, e := fn()\n\t\tnormalReturn = true\n\t\tdefer func() { c.val, c.err = v, e }()", "result assigned after the waiters are woken")
-mut("C06-update-oversize", ["C06", "C02", "C07"], T, "\t\tif entry.policyWeight > int64(t.capacity) {\n\t\t\tt.Remove(entry, true)\n\t\t} else {\n\t\t\tt.window.MoveToFront(entry)\n\t\t}", "\t\tt.window.MoveToFront(entry)", "window entry grown above MaxSize not self-evicted")
+# (C20-fifo, "a marker that opens a batch is answered at once", was dropped: equivalent, everything queued before such a marker was applied by earlier batches)
+mut("C13-pool-before-read", ["C13"], SF, "\t\tv = c.val\n\t\terr = c.err\n\t\tn := c.dups.Add(-1)\n\t\tif n == 0 {\n\t\t\tg.callPool.Put(c)\n\t\t}\n\t\treturn v, err, true", "\t\tn := c.dups.Add(-1)\n\t\tif n == 0 {\n\t\t\tg.callPool.Put(c)\n\t\t}\n\t\treturn c.val, c.err, true", "follower reads the result after handing the record back to the pool")
+# (C06-update-oversize dropped: equivalent, Set and the loader refuse costs above MaxSize before any update reaches the policy)
 
 def sh(cmd, cwd=None, timeout=1800):
     p = subprocess.run(cmd, shell=True, cwd=cwd, capture_output=True, text=True, timeout=timeout)
